@@ -20,10 +20,10 @@ def _stamps(rng):
             b"\x0f\x00\xe8\x03\xff\xff\xff\x7f", b"Chapter 1 ", b"\x2f\x00\x06\x00\x01\x00\x01\x00\x01\x00"]
 
 ZIP_OPS = ["xml_truncate", "xml_unclose", "xml_numbers", "xml_entity", "xml_deep", "xml_garbage", "member_drop", "member_empty",
-           "member_swap", "cd_forge", "xml_attr_drop", "xml_dup_children", "nonutf8", "stored_overlong", "xml_huge_count"]
+           "member_swap", "cd_forge", "xml_attr_drop", "xml_dup_children", "nonutf8", "stored_overlong", "xml_huge_count", "xml_lengths"]
 TEXT_OPS = ["deep_braces", "deep_tags", "ctrl_numbers", "unbalanced", "long_line", "nul_bytes", "random_ctrl"]
 
-EXTREMES = [b"0", b"-1", b"-6", b"-20", b"1", b"255", b"65535", b"65536", b"2147483647", b"2147483648", b"4294967295", b"4294967296", b"9999999999999999999", b"-2147483649", b"1e309", b"NaN", b""]
+EXTREMES = [b"0", b"-1", b"-6", b"-20", b"1", b"255", b"65535", b"65536", b"2147483647", b"2147483648", b"4294967295", b"4294967296", b"9999999999999999999", b"-2147483649", b"1e309", b"NaN", b"", b"9" * 400]
 
 
 def byte_mutate(data: bytes, op: str, rng: random.Random, other: bytes = b"") -> bytes:
@@ -162,6 +162,15 @@ def zip_mutate(data: bytes, op: str, rng: random.Random) -> bytes:
             raw[p + 20:p + 24] = struct.pack("<I", size)
             raw[p + 24:p + 28] = struct.pack("<I", size)
         return bytes(raw)
+    elif op == "xml_lengths":
+        # every length / extent in the part ("2.5cm", "914400" EMU in cx/cy, "12pt") takes one extreme value: sizes and positions that
+        # no arithmetic on them can represent (hundreds of digits), zero, negative
+        ext = rng.choice([b"9" * 400, b"9" * 400 + b".5", b"0", b"-1", b"1" + b"0" * 30])
+        for i in xml_idx:
+            zi_, d_ = members[i]
+            new = re.sub(rb'(?<=")-?\d+(?:\.\d+)?(?=(?:cm|mm|in|pt|pc|px)")', ext, d_)
+            new = re.sub(rb'(?<= c[xy]=")\d+(?=")', ext, new)
+            members[i] = (zi_, new)
     elif op == "xml_huge_count":
         # repeat / count attributes far beyond memory: the expansion fails at once with a bare MemoryError
         huge = rng.choice([b"1152921504606846976", b"4611686018427387904", b"9223372036854775807"])
@@ -202,7 +211,8 @@ def text_mutate(d: bytes, op: str, rng: random.Random) -> bytes:
             d = d[:a] + b" " * (b - a) + d[b:]
         return d
     if op == "xml_numbers":
-        nums = [m.span() for m in re.finditer(rb'(?<=")-?\d+(?=")|(?<=>)-?\d+(?=<)', d)]
+        # whole numbers in attribute values and element text, and the numeric part of lengths ("2.5cm", "12pt", "50%")
+        nums = [m.span() for m in re.finditer(rb'(?<=")-?\d+(?:\.\d+)?(?=(?:cm|mm|in|pt|pc|px|%)?")|(?<=>)-?\d+(?=<)', d)]
         if not nums:
             return d
         out, last = [], 0
